@@ -275,7 +275,20 @@ func (s *Stream) Stop() {
 	}
 
 	// Do not close dataChan: a close races with in-flight producers. Nil makes them stop.
+	// Rows still buffered at this point will never be processed: count them as dropped, so that
+	// processed + dropped still accounts for every accepted Emit.
 	s.dataChanMux.Lock()
+	if pending := s.dataChan; pending != nil {
+	drain:
+		for {
+			select {
+			case <-pending:
+				s.mInputDropped.Inc()
+			default:
+				break drain
+			}
+		}
+	}
 	s.dataChan = nil
 	s.dataChanMux.Unlock()
 
